@@ -697,3 +697,99 @@ def graph_features(req):
         if "mutual-recursion" in feats:
             break
     return feats
+
+
+# ------------------------------------------------------------------------------------------------ selective generation
+LINKS = ["plain", "repeated", "optional", "map", "map", "oneof", "nested", "nested-enum-holder"]
+
+
+def selective_api(r, force=None):
+    """(request, [rpc full names], {rpc: [input full name, output full name]}, features): a service whose rpcs reach
+    dedicated leaf types through one kind of link each (map value, oneof member, nested type, plain, repeated, optional),
+    leaves spread over two files, so that a subset of the rpcs keeps a proper subset of the types."""
+    res = File(f"{TARGET_DIR}/res.proto", TARGET)
+    main = File(f"{TARGET_DIR}/main.proto", TARGET, deps=list(apigen.STD_DEPS) + [res.proto.name])
+    feats = set()
+    leaves = []
+
+    def leaf(i, kind=None):
+        f = r.choice([res, main])
+        kind = kind or r.choice(["m", "m", "e"])
+        if kind == "e":
+            fq = f.enum(f"Grade{i}", [f"GRADE{i}_UNSPECIFIED", (f"GRADE{i}_A", 1), (f"GRADE{i}_B", r.choice([2, 5, 9]))])
+            leaves.append(("e", fq, f))
+            return "e", fq
+        m = f.message(f"Detail{i}")
+        m.field("text", 1, "string").field("n", 2, r.choice(["int32", "sint64", "bool", "bytes", "double"]))
+        usable = [x for x in leaves if not (f is res and x[2] is main)]      # res.proto cannot import main.proto
+        if usable and r.random() < 0.3:
+            k, fq, _ = r.choice(usable)
+            # a leaf reachable only through another leaf's map value
+            m.map_field("more", 3, "string", ("enum", fq) if k == "e" else fq)
+            feats.add("sel-leaf-chain-through-map")
+        leaves.append(("m", m.fqn, f))
+        return "m", m.fqn
+
+    def link(msg, num, how, k, fq, tag):
+        ty = ("enum", fq) if k == "e" else fq
+        feats.add(f"sel-link={how}")
+        if how == "plain":
+            msg.field(f"{tag}_ref", num, ty)
+        elif how == "repeated":
+            msg.field(f"{tag}_list", num, ty, repeated=True)
+        elif how == "map":
+            msg.map_field(f"{tag}_map", num, r.choice(["string", "int32", "uint64", "bool"]), ty)
+            feats.add("sel-map-value=" + ("enum" if k == "e" else "message"))
+        elif how == "oneof":
+            msg.field(f"{tag}_alt", num, "string", oneof=f"{tag}_choice").field(f"{tag}_pick", num + 1, ty, oneof=f"{tag}_choice")
+        elif how == "nested":
+            inner = msg.nested(f"{tag.capitalize()}Inner")
+            inner.field("leaf", 1, ty).field("z", 2, "fixed32")
+            msg.field(f"{tag}_inner", num, inner.fqn)
+        elif how == "nested-enum-holder":
+            inner = msg.nested(f"{tag.capitalize()}Holder")
+            ne = inner.enum("Mode", ["MODE_UNSPECIFIED", "ON"])
+            inner.field("mode", 1, ("enum", ne)).map_field("leafs", 2, "string", ty)
+            msg.map_field(f"{tag}_holders", num, "int64", inner.fqn)
+        # proto3 optional last: synthetic oneofs must follow the declared ones
+        elif how == "optional":
+            pass
+
+    svc = main.service("Sel", host="sel.example.com")
+    nrpc = r.randint(3, 5)
+    rpcs, io = [], {}
+    shared = [leaf(100 + j) for j in range(r.randint(1, 2))]
+    deferred_optional = []
+    for i in range(nrpc):
+        req = main.message(f"Op{i}Request")
+        req.field("name", 1, "string")
+        resp = main.message(f"Op{i}Response")
+        resp.field("id", 1, "string")
+        num = 10
+        hows = [force] if (force and i == 0) else []
+        hows += [r.choice(LINKS) for _ in range(r.randint(1, 3) - len(hows))]
+        for j, how in enumerate(hows):
+            k, fq = leaf(i * 10 + j)                          # private to this rpc, reachable through exactly one link
+            target = r.choice([resp, resp, req])
+            if how == "optional":
+                deferred_optional.append((target, num, k, fq, f"x{j}"))
+                feats.add("sel-link=optional")
+            else:
+                link(target, num, how, k, fq, f"x{j}")
+            num += 5
+        if r.random() < 0.5:
+            k, fq = r.choice(shared)
+            link(resp, 80, r.choice(["plain", "map", "repeated"]), k, fq, "sh")
+        svc.rpc(f"Op{i}", req.fqn, resp.fqn, http=("post", f"/v1/{{name=ops{i}/*}}:op{i}"), body="*")
+        rpcs.append(f"{TARGET}.Sel.Op{i}")
+        io[rpcs[-1]] = [req.fqn.lstrip("."), resp.fqn.lstrip(".")]
+    for target, num, k, fq, tag in deferred_optional:
+        target.field(f"{tag}_opt", num, ("enum", fq) if k == "e" else fq, optional=True)
+    request = apigen.request([res, main], parameter="transport=grpc")
+    return request, rpcs, io, sorted(feats)
+
+
+def selective_yaml(rpcs_all, methods):
+    return {"type": "google.api.Service", "config_version": 3, "apis": [{"name": f"{TARGET}.Sel"}],
+            "publishing": {"library_settings": [{"version": TARGET, "python_settings": {"common": {
+                "selective_gapic_generation": {"methods": list(methods), "generate_omitted_as_internal": False}}}}]}}
